@@ -690,10 +690,12 @@ def probe_issues(doc):
 
 
 def valid_prelude(U, interp, env, mem):
+    from . import seams
+    # the reference is the registry at import time, not after the probe has been built: building
+    # it creates objects and sets cardinalities, which is exactly what must not alter the rules
+    mem["registry"] = seams.import_time_fingerprint()
     mem["probe"] = build_probe()
     mem["probe_issues"] = probe_issues(mem["probe"])
-    from . import seams
-    mem["registry"] = seams.validation_fingerprint()
 
 
 VALIDATION_OPS = ("validate", "doc_validate", "validate_custom")
@@ -732,5 +734,11 @@ def mon_valid(ctx):
                 "%s: lost %r, gained %r" % (ctx.name, a[:3], b[:3]))
     reg = seams.validation_fingerprint()
     if reg != ctx.mem["registry"]:
-        return ("valid.registry", "default rule registry changed after %s" % ctx.name)
+        diff = ["%s: +%s -%s" % (k, sorted(set(reg.get(k, [])) - set(ctx.mem["registry"].get(k, []))),
+                                 sorted(set(ctx.mem["registry"].get(k, [])) - set(reg.get(k, []))))
+                for k in sorted(set(reg) | set(ctx.mem["registry"]))
+                if reg.get(k) != ctx.mem["registry"].get(k)]
+        return ("valid.registry", "default rule registry differs from the import-time registry "
+                "after %s (or after building the probe document before it): %s" %
+                (ctx.name, "; ".join(diff)[:300]))
     return None
